@@ -75,6 +75,11 @@ impl AnalyzedSource {
     }
 
     pub fn update(self, changes: Vec<TextChange>) -> Self {
+        if changes.is_empty() {
+            // nothing to do:
+            // without a parser update the old build and semantic messages would be reported twice
+            return self;
+        }
         let mut analysed_source = changes.into_iter().fold(self, |mut acc, change| {
             acc.text.replace_range(change.to_range(), &change.text);
             let (new_tokens, token_change) = lexer::update(&acc.text, acc.tokens, &change);
